@@ -1,3 +1,6 @@
+import Mathlib.Tactic.Ring
+import Mathlib.Tactic.Linarith
+import Mathlib.Tactic.LinearCombination
 import RlibModel.Model.Gcd
 /-! Helper lemmas for C11 (gcd / lcm / egcd / crt). -/
 namespace Rlib.Gcd
@@ -14,5 +17,510 @@ theorem gcdLoop_nonneg (a b : Int) (ha : 0 ≤ a) (hb : 0 ≤ b) : 0 ≤ gcdLoop
   | case2 a b hb0 ih =>
     rw [gcdLoop, dif_neg hb0]
     exact ih hb (Int.tmod_nonneg _ ha)
+
+
+theorem gcd_eq (a b : Int) : gcd a b = (Int.gcd a b : Int) := by
+  have h1 := gcdLoop_natAbs (a.natAbs : Int) (b.natAbs : Int)
+  have h2 := gcdLoop_nonneg (a.natAbs : Int) (b.natAbs : Int) (by omega) (by omega)
+  unfold gcd
+  simp only [Int.natAbs_natCast] at h1
+  rw [Int.gcd]
+  omega
+
+theorem lcm_zero : lcm 0 0 = .error .divzero := by
+  simp [lcm, gcd_eq]
+
+theorem lcm_eq (a b : Int) (h : ¬(a = 0 ∧ b = 0)) : lcm a b = .ok (Int.lcm a b : Int) := by
+  have hg : (Int.gcd a b : Int) ≠ 0 := by
+    intro h0
+    have : Int.gcd a b = 0 := by exact_mod_cast h0
+    rw [Int.gcd_eq_zero_iff] at this
+    exact h this
+  unfold lcm
+  simp only [gcd_eq, if_neg hg]
+  congr 1
+  rw [Int.tdiv_eq_ediv_of_nonneg (by omega)]
+  simp only [Int.lcm, Int.gcd, Nat.lcm]
+  norm_cast
+  exact (Nat.div_mul_right_comm (Nat.gcd_dvd_left _ _) _)
+
+theorem egcd_zero_left (b c : Int) : egcd 0 b c =
+    if b = 0 then .error .divzero else if c.tmod b ≠ 0 then .ok none else .ok (some (0, c.tdiv b)) := by
+  rw [egcd]; simp
+
+theorem egcd_step (a b c : Int) (ha : a ≠ 0) : egcd a b c =
+    match egcd (b.tmod a) a c with
+    | .error e => .error e
+    | .ok none => .ok none
+    | .ok (some (y0, x0)) => .ok (some (x0 - (b.tdiv a) * y0, y0)) := by
+  rw [egcd, dif_neg ha]
+  rfl
+
+theorem egcd_sound' (a b c : Int) : ∀ x y, egcd a b c = .ok (some (x, y)) → a * x + b * y = c := by
+  induction a, b using egcd.induct c with
+  | case1 => intro x y h; rw [egcd_zero_left] at h; simp at h
+  | case2 b hb hc => intro x y h; rw [egcd_zero_left, if_neg hb, if_pos hc] at h; simp at h
+  | case3 b hb hc =>
+    intro x y h
+    rw [egcd_zero_left, if_neg hb, if_neg hc] at h
+    simp only [Except.ok.injEq, Option.some.injEq, Prod.mk.injEq] at h
+    obtain ⟨rfl, rfl⟩ := h
+    have h1 := Int.mul_tdiv_add_tmod c b
+    have h2 : c.tmod b = 0 := by simpa using hc
+    linear_combination h1 - h2
+  | case4 a b ha e he ih => intro x y h; rw [egcd_step _ _ _ ha, he] at h; simp at h
+  | case5 a b ha he ih => intro x y h; rw [egcd_step _ _ _ ha, he] at h; simp at h
+  | case6 a b ha y0 x0 he ih =>
+    intro x y h
+    rw [egcd_step _ _ _ ha, he] at h
+    simp only [Except.ok.injEq, Option.some.injEq, Prod.mk.injEq] at h
+    obtain ⟨rfl, rfl⟩ := h
+    have h0 := ih _ _ he
+    have h1 := Int.mul_tdiv_add_tmod b a
+    linear_combination h0 - y0 * h1
+
+theorem gcd_tmod_left (a b : Int) : Int.gcd (b.tmod a) a = Int.gcd a b := by
+  simp only [Int.gcd, Int.natAbs_tmod]
+  exact (Nat.gcd_rec _ _).symm
+
+theorem dvd_iff_tmod_eq_zero (b c : Int) : c.tmod b = 0 ↔ b ∣ c := by
+  exact Iff.symm Int.dvd_iff_tmod_eq_zero
+
+theorem egcd_complete' (a b c : Int) : ¬(a = 0 ∧ b = 0) →
+    (egcd a b c = .ok none ∧ ¬ (Int.gcd a b : Int) ∣ c) ∨
+    (∃ x y, egcd a b c = .ok (some (x, y)) ∧ (Int.gcd a b : Int) ∣ c) := by
+  induction a, b using egcd.induct c with
+  | case1 => intro h; exact absurd ⟨rfl, rfl⟩ h
+  | case2 b hb hc =>
+    intro _
+    left
+    rw [egcd_zero_left, if_neg hb, if_pos hc]
+    refine ⟨rfl, ?_⟩
+    rw [Int.gcd_zero_left, Int.natAbs_dvd, ← dvd_iff_tmod_eq_zero]
+    exact hc
+  | case3 b hb hc =>
+    intro _
+    right
+    rw [egcd_zero_left, if_neg hb, if_neg hc]
+    refine ⟨_, _, rfl, ?_⟩
+    rw [Int.gcd_zero_left, Int.natAbs_dvd, ← dvd_iff_tmod_eq_zero]
+    simpa using hc
+  | case4 a b ha e he ih =>
+    intro _
+    rcases ih (fun h => ha h.2) with h | ⟨x, y, h, _⟩ <;> rw [he] at h <;> simp at h
+  | case5 a b ha he ih =>
+    intro _
+    rcases ih (fun h => ha h.2) with h | ⟨x, y, h, _⟩
+    · left
+      rw [egcd_step _ _ _ ha, he]
+      exact ⟨rfl, by rw [← gcd_tmod_left]; exact h.2⟩
+    · rw [he] at h; simp at h
+  | case6 a b ha y0 x0 he ih =>
+    intro _
+    rcases ih (fun h => ha h.2) with h | ⟨x, y, h, hd⟩
+    · rw [he] at h; simp at h
+    · right
+      rw [egcd_step _ _ _ ha, he]
+      exact ⟨_, _, rfl, by rw [← gcd_tmod_left]; exact hd⟩
+
+/-- The size invariant of the pair returned by `egcd` (`K = |c| / gcd`). -/
+def EgcdInv (a b : Int) (K : Nat) (x y : Int) : Prop :=
+  (a = 0 → x = 0 ∧ y.natAbs = K) ∧
+  (a ≠ 0 → Int.gcd a b * x.natAbs ≤ K * max (Int.gcd a b) b.natAbs ∧ Int.gcd a b * y.natAbs ≤ K * a.natAbs)
+
+theorem egcd_inv (a b c : Int) (K : Nat) : ∀ x y, egcd a b c = .ok (some (x, y)) →
+    c.natAbs = Int.gcd a b * K → EgcdInv a b K x y := by
+  induction a, b using egcd.induct c with
+  | case1 => intro x y h; rw [egcd_zero_left] at h; simp at h
+  | case2 b hb hc => intro x y h; rw [egcd_zero_left, if_neg hb, if_pos hc] at h; simp at h
+  | case3 b hb hc =>
+    intro x y h hK
+    rw [egcd_zero_left, if_neg hb, if_neg hc] at h
+    simp only [Except.ok.injEq, Option.some.injEq, Prod.mk.injEq] at h
+    obtain ⟨rfl, rfl⟩ := h
+    refine ⟨fun _ => ⟨rfl, ?_⟩, fun h => absurd rfl h⟩
+    rw [Int.gcd_zero_left] at hK
+    rw [Int.natAbs_tdiv, hK]
+    exact Nat.mul_div_cancel_left _ (by omega)
+  | case4 a b ha e he ih => intro x y h; rw [egcd_step _ _ _ ha, he] at h; simp at h
+  | case5 a b ha he ih => intro x y h; rw [egcd_step _ _ _ ha, he] at h; simp at h
+  | case6 a b ha y0 x0 he ih =>
+    intro x y h hK
+    rw [egcd_step _ _ _ ha, he] at h
+    simp only [Except.ok.injEq, Option.some.injEq, Prod.mk.injEq] at h
+    obtain ⟨rfl, rfl⟩ := h
+    have ih' := ih _ _ he (by rw [gcd_tmod_left]; exact hK)
+    rw [EgcdInv, gcd_tmod_left] at ih'
+    obtain ⟨ih0, ih1⟩ := ih'
+    refine ⟨fun h => absurd h ha, fun _ => ?_⟩
+    have hG : Int.gcd a b ≤ a.natAbs :=
+      Nat.le_of_dvd (by omega) (by rw [Int.gcd]; exact Nat.gcd_dvd_left _ _)
+    have hB : b.natAbs = (b.tdiv a).natAbs * a.natAbs + (b.tmod a).natAbs := by
+      rw [Int.natAbs_tdiv, Int.natAbs_tmod, Nat.mul_comm]; exact (Nat.div_add_mod _ _).symm
+    by_cases hr : b.tmod a = 0
+    · obtain ⟨hy, hx⟩ := ih0 hr
+      subst hy
+      simp only [mul_zero, sub_zero, Int.natAbs_zero, Nat.zero_le, and_true]
+      rw [hx, Nat.mul_comm]
+      exact Nat.mul_le_mul_left _ (le_max_left _ _)
+    · obtain ⟨hy, hx⟩ := ih1 hr
+      rw [max_eq_right hG] at hy
+      refine ⟨?_, hy⟩
+      have h1 : (x0 - b.tdiv a * y0).natAbs ≤ x0.natAbs + (b.tdiv a).natAbs * y0.natAbs := by
+        have := Int.natAbs_sub_le x0 (b.tdiv a * y0)
+        rwa [Int.natAbs_mul] at this
+      calc Int.gcd a b * (x0 - b.tdiv a * y0).natAbs
+          ≤ Int.gcd a b * (x0.natAbs + (b.tdiv a).natAbs * y0.natAbs) := Nat.mul_le_mul_left _ h1
+        _ = Int.gcd a b * x0.natAbs + (b.tdiv a).natAbs * (Int.gcd a b * y0.natAbs) := by ring
+        _ ≤ K * (b.tmod a).natAbs + (b.tdiv a).natAbs * (K * a.natAbs) :=
+            Nat.add_le_add hx (Nat.mul_le_mul_left _ hy)
+        _ = K * b.natAbs := by rw [hB]; ring
+        _ ≤ K * max (Int.gcd a b) b.natAbs := Nat.mul_le_mul_left _ (le_max_right _ _)
+
+theorem egcd_bound' (a b c x y : Int) (h : egcd a b c = .ok (some (x, y))) (hd : (Int.gcd a b : Int) ∣ c) :
+    x.natAbs ≤ (c.natAbs / Int.gcd a b) * max 1 (b.natAbs / Int.gcd a b) ∧
+    y.natAbs ≤ (c.natAbs / Int.gcd a b) * max 1 (a.natAbs / Int.gcd a b) := by
+  have hdn : Int.gcd a b ∣ c.natAbs := by
+    have := Int.natAbs_dvd_natAbs.mpr hd
+    simpa using this
+  obtain ⟨K, hK⟩ := hdn
+  have hinv := egcd_inv a b c K x y h hK
+  by_cases hG : Int.gcd a b = 0
+  · -- a = b = 0: egcd errors
+    rw [Int.gcd_eq_zero_iff] at hG
+    obtain ⟨rfl, rfl⟩ := hG
+    rw [egcd_zero_left] at h; simp at h
+  have hGpos : 0 < Int.gcd a b := Nat.pos_of_ne_zero hG
+  have hKdiv : c.natAbs / Int.gcd a b = K := by rw [hK]; exact Nat.mul_div_cancel_left _ hGpos
+  rw [hKdiv]
+  obtain ⟨A, hA⟩ : Int.gcd a b ∣ a.natAbs := by rw [Int.gcd]; exact Nat.gcd_dvd_left _ _
+  obtain ⟨B, hB⟩ : Int.gcd a b ∣ b.natAbs := by rw [Int.gcd]; exact Nat.gcd_dvd_right _ _
+  have hAdiv : a.natAbs / Int.gcd a b = A := by rw [hA]; exact Nat.mul_div_cancel_left _ hGpos
+  have hBdiv : b.natAbs / Int.gcd a b = B := by rw [hB]; exact Nat.mul_div_cancel_left _ hGpos
+  rw [hAdiv, hBdiv]
+  by_cases ha : a = 0
+  · obtain ⟨hx, hy⟩ := hinv.1 ha
+    subst hx
+    refine ⟨by simp, ?_⟩
+    rw [hy]; exact Nat.le_mul_of_pos_right _ (by omega)
+  · obtain ⟨hx, hy⟩ := hinv.2 ha
+    constructor
+    · have : Int.gcd a b * x.natAbs ≤ Int.gcd a b * (K * max 1 B) := by
+        calc Int.gcd a b * x.natAbs ≤ K * max (Int.gcd a b) b.natAbs := hx
+          _ = Int.gcd a b * (K * max 1 B) := by
+            have e : max (Int.gcd a b) (Int.gcd a b * B) = Int.gcd a b * max 1 B := by
+              rw [← Nat.mul_max_mul_left, Nat.mul_one]
+            rw [hB, e]; ring
+      exact Nat.le_of_mul_le_mul_left this hGpos
+    · have : Int.gcd a b * y.natAbs ≤ Int.gcd a b * (K * max 1 A) := by
+        calc Int.gcd a b * y.natAbs ≤ K * a.natAbs := hy
+          _ = Int.gcd a b * (K * A) := by rw [hA]; ring
+          _ ≤ Int.gcd a b * (K * max 1 A) :=
+            Nat.mul_le_mul_left _ (Nat.mul_le_mul_left _ (le_max_right _ _))
+      exact Nat.le_of_mul_le_mul_left this hGpos
+
+theorem egcd_some_dvd (a b c x y : Int) (h : egcd a b c = .ok (some (x, y))) :
+    ∃ K, c.natAbs = Int.gcd a b * K := by
+  have hs := egcd_sound' a b c x y h
+  have hd : (Int.gcd a b : Int) ∣ c := by
+    rw [← hs]
+    exact Int.dvd_add (Int.dvd_trans (Int.gcd_dvd_left a b) (Int.dvd_mul_right a x))
+      (Int.dvd_trans (Int.gcd_dvd_right a b) (Int.dvd_mul_right b y))
+  have := Int.natAbs_dvd_natAbs.mpr hd
+  simp only [Int.natAbs_natCast] at this
+  exact this
+
+theorem checked_of_fits (t : IntTy) (z : Int) (h : t.fits z = true) : checked t z = .ok z := by
+  simp [checked, h]
+
+theorem egcdT_zero_left (t : IntTy) (b c : Int) : egcdT t 0 b c =
+    if b = 0 then .error .divzero else if c.tmod b ≠ 0 then .ok none else
+      match checked t (c.tdiv b) with
+      | .error e => .error e
+      | .ok q => .ok (some (0, q)) := by
+  rw [egcdT, dif_pos rfl]
+  rfl
+
+theorem egcdT_step (t : IntTy) (a b c : Int) (ha : a ≠ 0) : egcdT t a b c =
+    match egcdT t (b.tmod a) a c with
+    | .error e => .error e
+    | .ok none => .ok none
+    | .ok (some (y0, x0)) =>
+      match checked t (b.tdiv a) with
+      | .error e => .error e
+      | .ok q =>
+      match checked t (q * y0) with
+      | .error e => .error e
+      | .ok p =>
+      match checked t (x0 - p) with
+      | .error e => .error e
+      | .ok x => .ok (some (x, y0)) := by
+  rw [egcdT, dif_neg ha]
+  rfl
+
+/-- If the type holds every integer of magnitude `≤ M` and every integer `z` with `gcd·|z| ≤ (|c|/gcd)·M`,
+    and `|a|, |b| ≤ M`, then the checked recursion never overflows and equals the unbounded one. -/
+theorem egcdT_eq (t : IntTy) (M : Nat) (hfit : ∀ z : Int, z.natAbs ≤ M → t.fits z = true) (a b c : Int) :
+    a.natAbs ≤ M → b.natAbs ≤ M →
+    (∀ K, c.natAbs = Int.gcd a b * K → ∀ z : Int, Int.gcd a b * z.natAbs ≤ K * M → t.fits z = true) →
+    egcdT t a b c = egcd a b c := by
+  induction a, b using egcd.induct c with
+  | case1 => intro _ _ _; rw [egcd_zero_left, egcdT_zero_left]; simp
+  | case2 b hb hc => intro _ _ _; rw [egcd_zero_left, egcdT_zero_left, if_neg hb, if_pos hc, if_neg hb, if_pos hc]
+  | case3 b hb hc =>
+    intro _ hbM hf
+    rw [egcd_zero_left, egcdT_zero_left, if_neg hb, if_neg hc, if_neg hb, if_neg hc]
+    have hdvd : b ∣ c := by
+      have hc' : c.tmod b = 0 := by simpa using hc
+      exact Int.dvd_iff_tmod_eq_zero.mpr hc'
+    obtain ⟨k, rfl⟩ := hdvd
+    have : t.fits ((b * k).tdiv b) = true := by
+      apply hf k.natAbs
+      · rw [Int.gcd_zero_left, Int.natAbs_mul]
+      · rw [Int.gcd_zero_left, Int.mul_tdiv_cancel_left _ hb, Nat.mul_comm]
+        exact Nat.mul_le_mul_left _ hbM
+    rw [checked_of_fits _ _ this]
+  | case4 a b ha e he ih =>
+    intro haM hbM hf
+    have hr : (b.tmod a).natAbs ≤ M := by
+      rw [Int.natAbs_tmod]; exact Nat.le_trans (Nat.le_of_lt (Nat.mod_lt _ (by omega))) haM
+    have ih' := ih hr haM (by rw [gcd_tmod_left]; exact hf)
+    rw [egcd_step _ _ _ ha, egcdT_step _ _ _ _ ha, ih', he]
+  | case5 a b ha he ih =>
+    intro haM hbM hf
+    have hr : (b.tmod a).natAbs ≤ M := by
+      rw [Int.natAbs_tmod]; exact Nat.le_trans (Nat.le_of_lt (Nat.mod_lt _ (by omega))) haM
+    have ih' := ih hr haM (by rw [gcd_tmod_left]; exact hf)
+    rw [egcd_step _ _ _ ha, egcdT_step _ _ _ _ ha, ih', he]
+  | case6 a b ha y0 x0 he ih =>
+    intro haM hbM hf
+    have hr : (b.tmod a).natAbs ≤ M := by
+      rw [Int.natAbs_tmod]; exact Nat.le_trans (Nat.le_of_lt (Nat.mod_lt _ (by omega))) haM
+    have ih' := ih hr haM (by rw [gcd_tmod_left]; exact hf)
+    have hres : egcd a b c = .ok (some (x0 - b.tdiv a * y0, y0)) := by rw [egcd_step _ _ _ ha, he]
+    rw [hres, egcdT_step _ _ _ _ ha, ih', he]
+    obtain ⟨K, hK⟩ := egcd_some_dvd _ _ _ _ _ hres
+    have hf' := hf K hK
+    have inv0 := egcd_inv _ _ _ K _ _ he (by rw [gcd_tmod_left]; exact hK)
+    rw [EgcdInv, gcd_tmod_left] at inv0
+    have inv1 := (egcd_inv _ _ _ K _ _ hres hK).2 ha
+    have hG : Int.gcd a b ≤ a.natAbs :=
+      Nat.le_of_dvd (by omega) (by rw [Int.gcd]; exact Nat.gcd_dvd_left _ _)
+    have hB : b.natAbs = (b.tdiv a).natAbs * a.natAbs + (b.tmod a).natAbs := by
+      rw [Int.natAbs_tdiv, Int.natAbs_tmod, Nat.mul_comm]; exact (Nat.div_add_mod _ _).symm
+    have h1 : t.fits (b.tdiv a) = true := by
+      apply hfit
+      rw [Int.natAbs_tdiv]
+      exact Nat.le_trans (Nat.div_le_self _ _) hbM
+    have h2 : t.fits (b.tdiv a * y0) = true := by
+      apply hf'
+      rw [Int.natAbs_mul]
+      by_cases hr0 : b.tmod a = 0
+      · rw [(inv0.1 hr0).1]; simp
+      · have hy := (inv0.2 hr0).1
+        rw [max_eq_right hG] at hy
+        calc Int.gcd a b * ((b.tdiv a).natAbs * y0.natAbs)
+            = (b.tdiv a).natAbs * (Int.gcd a b * y0.natAbs) := by ring
+          _ ≤ (b.tdiv a).natAbs * (K * a.natAbs) := Nat.mul_le_mul_left _ hy
+          _ = K * ((b.tdiv a).natAbs * a.natAbs) := by ring
+          _ ≤ K * M := Nat.mul_le_mul_left _ (by omega)
+    have h3 : t.fits (x0 - b.tdiv a * y0) = true := by
+      apply hf'
+      exact Nat.le_trans inv1.1 (Nat.mul_le_mul_left _ (max_le (Nat.le_trans hG haM) hbM))
+    simp only [checked_of_fits _ _ h1, checked_of_fits _ _ h2, checked_of_fits _ _ h3]
+
+
+theorem tmod_add_tmod_eq_emod (x m : Int) (hm : 0 < m) : ((x.tmod m) + m).tmod m = x % m := by
+  have h1 : (x.tmod m).natAbs < m.natAbs := by
+    rw [Int.natAbs_tmod]; exact Nat.mod_lt _ (by omega)
+  have h2 : 0 ≤ x.tmod m + m := by omega
+  rw [Int.tmod_eq_emod_of_nonneg h2, Int.add_emod_right, Int.tmod_def, Int.sub_eq_add_neg, ← Int.mul_neg,
+    Int.add_mul_emod_self_left]
+
+theorem lcm_eq_mul_div (m1 m2 : Int) (h1 : 0 < m1) (h2 : 0 < m2) :
+    (Int.lcm m1 m2 : Int) = m1 * (m2 / (Int.gcd m1 m2 : Int)) := by
+  have hg : (0 : Int) < Int.gcd m1 m2 := by
+    have : Int.gcd m1 m2 ≠ 0 := by rw [Ne, Int.gcd_eq_zero_iff]; omega
+    omega
+  obtain ⟨k, hk⟩ := Int.gcd_dvd_right m1 m2
+  have e : m2 / (Int.gcd m1 m2 : Int) = k := by
+    exact Int.ediv_eq_of_eq_mul_right (by omega) hk
+  rw [e]
+  have h := Int.gcd_mul_lcm m1 m2
+  have h' : ((Int.gcd m1 m2 : Int)) * (Int.lcm m1 m2 : Int) = m1 * m2 := by
+    have : ((Int.gcd m1 m2 * Int.lcm m1 m2 : Nat) : Int) = ((m1.natAbs * m2.natAbs : Nat) : Int) := by rw [h]
+    rw [Int.natCast_mul, Int.natCast_mul, Int.natAbs_of_nonneg (Int.le_of_lt h1),
+      Int.natAbs_of_nonneg (Int.le_of_lt h2)] at this
+    exact this
+  have h'' : (Int.gcd m1 m2 : Int) * (Int.lcm m1 m2 : Int) = (Int.gcd m1 m2 : Int) * (m1 * k) := by
+    rw [h']; conv_lhs => rw [hk]
+    ring
+  exact Int.eq_of_mul_eq_mul_left (by omega) h''
+
+theorem crt_of_none (a1 m1 a2 m2 : Int) (h : egcd m1 (-m2) (a2 - a1) = .ok none) :
+    crt a1 m1 a2 m2 = .ok none := by
+  simp only [crt, h]
+
+theorem crt_of_some (a1 m1 a2 m2 x y : Int) (h : egcd m1 (-m2) (a2 - a1) = .ok (some (x, y)))
+    (hg : gcd m1 m2 ≠ 0) (hm : m2.tdiv (gcd m1 m2) ≠ 0) :
+    crt a1 m1 a2 m2 = .ok (some (m1 * ((x.tmod (m2.tdiv (gcd m1 m2)) + m2.tdiv (gcd m1 m2)).tmod (m2.tdiv (gcd m1 m2))) + a1)) := by
+  simp only [crt, h, if_neg hg, if_neg hm]
+
+theorem crt_main (a1 m1 a2 m2 : Int) (hm1 : 1 ≤ m1) (hm2 : 1 ≤ m2) (ha1 : 0 ≤ a1 ∧ a1 < m1) (_ha2 : 0 ≤ a2 ∧ a2 < m2) :
+    (¬ (Int.gcd m1 m2 : Int) ∣ a2 - a1 ∧ crt a1 m1 a2 m2 = .ok none) ∨
+    ((Int.gcd m1 m2 : Int) ∣ a2 - a1 ∧ ∃ x, crt a1 m1 a2 m2 = .ok (some x) ∧ 0 ≤ x ∧ x < (Int.lcm m1 m2 : Int) ∧
+      m1 ∣ x - a1 ∧ m2 ∣ x - a2) := by
+  have hgpos : (0 : Int) < Int.gcd m1 m2 := by
+    have : Int.gcd m1 m2 ≠ 0 := by rw [Ne, Int.gcd_eq_zero_iff]; omega
+    omega
+  have hgneg : Int.gcd m1 (-m2) = Int.gcd m1 m2 := Int.gcd_neg
+  rcases egcd_complete' m1 (-m2) (a2 - a1) (by omega) with ⟨h, hd⟩ | ⟨x, y, h, hd⟩
+  · left
+    rw [hgneg] at hd
+    exact ⟨hd, crt_of_none _ _ _ _ h⟩
+  · right
+    rw [hgneg] at hd
+    refine ⟨hd, ?_⟩
+    have hs := egcd_sound' _ _ _ _ _ h
+    obtain ⟨k2, hk2⟩ := Int.gcd_dvd_right m1 m2
+    obtain ⟨k1, hk1⟩ := Int.gcd_dvd_left m1 m2
+    have hk2pos : 0 < k2 := by
+      rcases Int.lt_trichotomy k2 0 with hneg | h0 | hpos
+      · have := Int.mul_neg_of_pos_of_neg hgpos hneg; omega
+      · rw [h0] at hk2; omega
+      · exact hpos
+    have hdiv : m2.tdiv (gcd m1 m2) = k2 := by
+      rw [gcd_eq, Int.tdiv_eq_ediv_of_nonneg (by omega)]
+      exact Int.ediv_eq_of_eq_mul_right (by omega) hk2
+    have hediv : m2 / (Int.gcd m1 m2 : Int) = k2 := Int.ediv_eq_of_eq_mul_right (by omega) hk2
+    have hc := crt_of_some a1 m1 a2 m2 x y h (by rw [gcd_eq]; omega) (by rw [hdiv]; omega)
+    rw [hdiv, tmod_add_tmod_eq_emod _ _ hk2pos] at hc
+    refine ⟨_, hc, ?_, ?_, ?_, ?_⟩
+    · have := Int.mul_nonneg (by omega : 0 ≤ m1) (Int.emod_nonneg x (by omega : k2 ≠ 0))
+      omega
+    · rw [lcm_eq_mul_div _ _ (by omega) (by omega), hediv]
+      have h1 : x % k2 ≤ k2 - 1 := by have := Int.emod_lt_of_pos x hk2pos; omega
+      have h2 : m1 * (x % k2) ≤ m1 * (k2 - 1) := Int.mul_le_mul_of_nonneg_left h1 (by omega)
+      have h3 : m1 * (k2 - 1) = m1 * k2 - m1 := by ring
+      omega
+    · exact ⟨x % k2, by ring⟩
+    · refine ⟨y - k1 * (x / k2), ?_⟩
+      have hx : x % k2 = x - k2 * (x / k2) := Int.emod_def x k2
+      rw [hx]
+      have e1 : m1 * k2 = k1 * m2 := by
+        conv_lhs => rw [hk1]
+        conv_rhs => rw [hk2]
+        ring
+      linear_combination hs - (x / k2) * e1
+
+/-- Two solutions of the same pair of congruences inside `[0, lcm)` coincide. -/
+theorem crt_unique' (a1 m1 a2 m2 x z : Int)
+    (hx : 0 ≤ x ∧ x < (Int.lcm m1 m2 : Int)) (hz : 0 ≤ z ∧ z < (Int.lcm m1 m2 : Int))
+    (hx1 : m1 ∣ x - a1) (hx2 : m2 ∣ x - a2) (hz1 : m1 ∣ z - a1) (hz2 : m2 ∣ z - a2) : z = x := by
+  have d1 : m1 ∣ z - x := by
+    have := Int.dvd_sub hz1 hx1
+    have e : z - a1 - (x - a1) = z - x := by ring
+    rwa [e] at this
+  have d2 : m2 ∣ z - x := by
+    have := Int.dvd_sub hz2 hx2
+    have e : z - a2 - (x - a2) = z - x := by ring
+    rwa [e] at this
+  have d : (Int.lcm m1 m2 : Int) ∣ z - x := Int.natCast_dvd.mpr (Int.lcm_dvd (Int.dvd_natAbs.mpr d1) (Int.dvd_natAbs.mpr d2))
+  have h0 : z - x = 0 := Int.eq_zero_of_dvd_of_natAbs_lt_natAbs d (by omega)
+  omega
+
+theorem gcdT_eq (t : IntTy) (a b : Int) (ha : t.fits (a.natAbs : Int) = true) (hb : t.fits (b.natAbs : Int) = true) :
+    gcdT t a b = .ok (Int.gcd a b : Int) := by
+  simp only [gcdT, checked_of_fits _ _ ha, checked_of_fits _ _ hb, gcd_eq]
+  rfl
+
+theorem lcmT_eq (t : IntTy) (a b : Int) (ha : t.fits (a.natAbs : Int) = true) (hb : t.fits (b.natAbs : Int) = true)
+    (hab : ¬(a = 0 ∧ b = 0)) (hl : t.fits (Int.lcm a b : Int) = true) :
+    lcmT t a b = .ok (Int.lcm a b : Int) := by
+  simp only [lcmT, checked_of_fits _ _ ha, checked_of_fits _ _ hb, lcm_eq a b hab]
+  show checked t _ = _
+  exact checked_of_fits _ _ hl
+
+/-- The absolute value of a representable operand other than the minimum of a signed type is representable. -/
+theorem fits_natAbs (t : IntTy) (a : Int) (ha : t.fits a = true) (hmin : t.signed = true → a ≠ t.minVal) :
+    t.fits (a.natAbs : Int) = true := by
+  unfold IntTy.fits IntTy.minVal IntTy.maxVal at *
+  cases hs : t.signed
+  · simp only [hs, Bool.false_eq_true, if_false, Bool.and_eq_true, decide_eq_true_eq] at ha ⊢
+    omega
+  · simp only [hs, if_true, Bool.and_eq_true, decide_eq_true_eq] at ha ⊢
+    have := hmin hs
+    simp only [hs, if_true] at this
+    omega
+
+/-- Inside a box `1 ≤ m1, m2 ≤ M` with reduced residues, a type that holds every integer of magnitude `≤ 2·M²`
+    computes `crt` without overflow. -/
+theorem crtT_eq (t : IntTy) (M : Nat) (hfit : ∀ z : Int, z.natAbs ≤ 2 * M * M → t.fits z = true)
+    (a1 m1 a2 m2 : Int) (hm1 : 1 ≤ m1 ∧ m1 ≤ M) (hm2 : 1 ≤ m2 ∧ m2 ≤ M)
+    (ha1 : 0 ≤ a1 ∧ a1 < m1) (ha2 : 0 ≤ a2 ∧ a2 < m2) :
+    crtT t a1 m1 a2 m2 = crt a1 m1 a2 m2 := by
+  have hM : 1 ≤ M := by omega
+  have hMM : M ≤ 2 * M * M := by nlinarith
+  have hfitM : ∀ z : Int, z.natAbs ≤ M → t.fits z = true := fun z hz => hfit z (by omega)
+  have hgpos : (0 : Int) < Int.gcd m1 m2 := by
+    have : Int.gcd m1 m2 ≠ 0 := by rw [Ne, Int.gcd_eq_zero_iff]; omega
+    omega
+  have hgneg : Int.gcd m1 (-m2) = Int.gcd m1 m2 := Int.gcd_neg
+  have hE : egcdT t m1 (-m2) (a2 - a1) = egcd m1 (-m2) (a2 - a1) := by
+    apply egcdT_eq t M hfitM
+    · omega
+    · omega
+    · intro K hK z hz
+      apply hfit
+      rw [hgneg] at hK hz
+      have hGpos : 0 < Int.gcd m1 m2 := by omega
+      have hKM : K ≤ M := by
+        have : K ≤ Int.gcd m1 m2 * K := Nat.le_mul_of_pos_left _ hGpos
+        omega
+      have h1 : z.natAbs ≤ Int.gcd m1 m2 * z.natAbs := Nat.le_mul_of_pos_left _ hGpos
+      have h2 : K * M ≤ M * M := Nat.mul_le_mul_right _ hKM
+      have h3 : M * M ≤ 2 * M * M := by nlinarith
+      omega
+  have hdiv : 0 < m2.tdiv (gcd m1 m2) ∧ m2.tdiv (gcd m1 m2) ≤ m2 := by
+    rw [gcd_eq, Int.tdiv_eq_ediv_of_nonneg (by omega)]
+    exact ⟨Int.ediv_pos_of_pos_of_dvd (by omega) (by omega) (Int.gcd_dvd_right m1 m2),
+      Int.ediv_le_self _ (by omega)⟩
+  unfold crtT
+  rw [gcdT_eq t m1 m2 (hfitM _ (by omega)) (hfitM _ (by omega))]
+  simp only [checked_of_fits t (-m2) (hfitM _ (by omega)), checked_of_fits t (a2 - a1) (hfitM _ (by omega)), hE]
+  rcases egcd_complete' m1 (-m2) (a2 - a1) (by omega) with ⟨h, _⟩ | ⟨x, y, h, _⟩
+  · rw [crt_of_none _ _ _ _ h, h]
+  · have hc := crt_of_some a1 m1 a2 m2 x y h (by rw [gcd_eq]; omega) (by omega)
+    rw [hc, h]
+    rcases crt_main a1 m1 a2 m2 hm1.1 hm2.1 ha1 ha2 with ⟨_, hn⟩ | ⟨_, r, hr, hr0, hrl, _, _⟩
+    · rw [hn] at hc; simp at hc
+    rw [hr] at hc
+    simp only [Except.ok.injEq, Option.some.injEq] at hc
+    rw [← gcd_eq]
+    generalize m2.tdiv (gcd m1 m2) = k at hdiv hc ⊢
+    have hl : (Int.lcm m1 m2 : Int) ≤ M * M := by
+      rw [lcm_eq_mul_div _ _ (by omega) (by omega)]
+      have h1 : m2 / (Int.gcd m1 m2 : Int) ≤ m2 := Int.ediv_le_self _ (by omega)
+      have h0 : 0 ≤ m2 / (Int.gcd m1 m2 : Int) := Int.ediv_nonneg (by omega) (by omega)
+      exact Int.mul_le_mul hm1.2 (by omega) h0 (by omega)
+    have hN1 : 2 * M ≤ 2 * M * M := by nlinarith
+    have hN2 : M * M ≤ 2 * M * M := by nlinarith
+    have hMMi : ((M * M : Nat) : Int) = (M : Int) * (M : Int) := by push_cast; ring
+    rw [← hMMi] at hl
+    generalize 2 * M * M = N at hfit hN1 hN2
+    generalize M * M = P at hl hN2
+    have hx1 : (x.tmod k).natAbs < k.natAbs := by
+      rw [Int.natAbs_tmod]; exact Nat.mod_lt _ (by omega)
+    have hs0 : 0 ≤ x.tmod k + k := by omega
+    have hx' : 0 ≤ (x.tmod k + k).tmod k := Int.tmod_nonneg _ hs0
+    have hp0 : 0 ≤ m1 * (x.tmod k + k).tmod k := Int.mul_nonneg (by omega) hx'
+    have hk : t.fits k = true := hfitM _ (by omega)
+    have hsf : t.fits (x.tmod k + k) = true := hfit _ (by omega)
+    have hpf : t.fits (m1 * (x.tmod k + k).tmod k) = true := hfit _ (by omega)
+    have hrf : t.fits (m1 * (x.tmod k + k).tmod k + a1) = true := hfit _ (by omega)
+    have hg0 : ¬ gcd m1 m2 = 0 := by rw [gcd_eq]; omega
+    have hk0 : ¬ k = 0 := by omega
+    simp only [if_neg hg0, checked_of_fits _ _ hk, if_neg hk0, checked_of_fits _ _ hsf, checked_of_fits _ _ hpf,
+      checked_of_fits _ _ hrf]
 
 end Rlib.Gcd
